@@ -527,7 +527,58 @@ def no_hidden_state(chk, repo, pid):
                f'{how} on the module-level / memoised object `{name}`: later calls see what earlier calls left there, '
                f'so the result is not a function of the arguments alone', loc)
     chk.ob(clause, 'E4-module-state', '+'.join(mods), 'no hidden state', not bad, f'{n} functions scanned', '')
+    no_tolerance_shortcut(chk, repo, pid)
     return eff
+
+
+def no_tolerance_shortcut(chk, repo, pid):
+    """What is computed never hinges on `np.allclose` / `np.isclose` / `math.isclose` with their default *absolute*
+    tolerance (1e-8, 1e-9): the properties quantify over data of any scale (amplitudes of 1e-9, wavelengths of 5e-7,
+    OPDs of 1e-8 metres), for which such a test is true although the values differ.  A test that passes an explicit
+    absolute tolerance states its scale and is not judged here."""
+    clause = f'{pid}-t'
+    mods = PROPERTY_MODULES[pid]
+    chk.clause(clause, 'no test with a default absolute tolerance (allclose / isclose) decides what is computed', 1)
+    bad, n = [], 0
+    for f in repo.all_functions():
+        if f.module.name not in mods:
+            continue
+        n += 1
+        tol_names = set()
+
+        def is_tol(node):
+            if not isinstance(node, ast.Call):
+                return False
+            d = dotted(node.func) or ''
+            if d.split('.')[-1] not in ('allclose', 'isclose'):
+                return False
+            kws = {k.arg for k in node.keywords}
+            if 'atol' in kws or 'abs_tol' in kws or len(node.args) >= 4:
+                return False
+            return True
+        tests = []
+        for node in ast.walk(f.node):
+            if isinstance(node, ast.Assign) and len(node.targets) == 1 and isinstance(node.targets[0], ast.Name) and \
+                    any(is_tol(x) for x in ast.walk(node.value)):
+                tol_names.add(node.targets[0].id)
+            if isinstance(node, (ast.If, ast.IfExp, ast.While, ast.Assert)):
+                tests.append(node.test)
+            if isinstance(node, ast.comprehension):
+                tests.extend(node.ifs)
+        for t in tests:
+            hit = [x for x in ast.walk(t) if is_tol(x) or (isinstance(x, ast.Name) and x.id in tol_names)]
+            if hit:
+                bad.append((f, hit[0]))
+    seen = set()
+    for f, node in bad:
+        k = (f.key, getattr(node, 'lineno', 0))
+        if k in seen:
+            continue
+        seen.add(k)
+        chk.ob(clause, 'T-tolerance', f.key, 'no default absolute tolerance in a test that selects what is computed', False,
+               f'`{seg(f, node)[:80]}` decides a branch: with the default absolute tolerance values below 1e-8 count as equal, '
+               f'whatever their unit or scale', f.loc(node))
+    chk.ob(clause, 'T-tolerance', '+'.join(mods), 'no tolerance shortcut', not bad, f'{n} functions scanned', '')
 
 
 class Remap:
